@@ -24,6 +24,7 @@ pub fn model(tier: Tier, world: &str) -> Hist {
     alpha.receivership = true;
     alpha.collect = true;
     alpha.pulse = true;
+    alpha.flash_wrap = true;
     alpha.max_clock_devs = if tier == Tier::Quick { 1 } else { 2 };
     alpha.max_price_devs = 1;
     alpha.price_moves = vec![(3, 1)];
